@@ -582,9 +582,18 @@ def specialize(formulas, cases):
     return out
 
 
-def solve_piece(hyps_qf, hyps_full, goal, timeout_ms, cases=()):
+def solve_piece(hyps_qf, hyps_full, goal, timeout_ms, cases=(), hyps_small=None):
     """-> (verdict, info). QF instantiated attempt first; the full (quantified) query decides sat/unknown."""
     tsum = 0.0
+    if hyps_small is not None and not cases:
+        from . import prep as _prep0
+        hs = list(hyps_small) + _prep0.nth_axioms(list(hyps_small) + [goal])
+        hs = hs + smt.pow2_axioms(hs + [goal])
+        v0, info0 = smt.check(hs, goal, 6000, want_model=False)
+        tsum += info0.get("time", 0)
+        if v0 == "unsat":
+            info0["mode"] = "qf-goal-directed"
+            return v0, info0
     if cases:
         n = len(hyps_qf)
         sp = specialize(list(hyps_qf) + [goal], cases)
@@ -679,7 +688,7 @@ def discharge(eng: Engine, rep: dict, timeout_ms=10000, second_opinion=False) ->
             stop = False
             for pc_ in pieces:
                 for cs in cases:
-                    v, info = solve_piece(pc_["hyps_qf"], pc_["hyps_full"], pc_["goal"], timeout_ms, cs)
+                    v, info = solve_piece(pc_["hyps_qf"], pc_["hyps_full"], pc_["goal"], timeout_ms, cs, pc_.get("hyps_small"))
                     queries += 1
                     tsum += info.get("time", 0)
                     backend.add(info.get("backend", "?"))
